@@ -33,6 +33,7 @@ type World struct {
 	Contracts      map[string]*Contract // by key "helper.Skip"
 	RepoDir        string
 	IfaceContracts map[string]*Contract // "trend.Ma.Compute"
+	Lemmas         map[string]*Contract
 }
 
 func shortPkg(path string) string {
@@ -56,7 +57,7 @@ func loadWorld(repo string, contractDir string) (*World, error) {
 		return nil, err
 	}
 	w := &World{Pkgs: map[string]*packages.Package{}, Funcs: map[string]*FuncInfo{}, ByObj: map[*types.Func]*FuncInfo{},
-		Contracts: map[string]*Contract{}, RepoDir: repo, IfaceContracts: map[string]*Contract{}}
+		Contracts: map[string]*Contract{}, RepoDir: repo, IfaceContracts: map[string]*Contract{}, Lemmas: map[string]*Contract{}}
 	for _, p := range pkgs {
 		if len(p.Errors) > 0 {
 			return nil, fmt.Errorf("package %s: %v", p.PkgPath, p.Errors[0])
@@ -115,6 +116,10 @@ func loadWorld(repo string, contractDir string) (*World, error) {
 			return nil, err
 		}
 		for _, c := range cs {
+			if strings.HasPrefix(c.Key, "lemma:") {
+				w.Lemmas[strings.TrimPrefix(c.Key, "lemma:")] = c
+				continue
+			}
 			if strings.HasPrefix(c.Key, "interface ") {
 				k := sp + "." + strings.TrimSpace(strings.TrimPrefix(c.Key, "interface "))
 				w.IfaceContracts[k] = c
